@@ -2,7 +2,7 @@
 
 use crate::big::{I512, U512};
 use crate::runner::*;
-use crate::spec::{self, RemClass};
+use crate::spec::{self, mode_name, RemClass, ALL_MODES};
 use fpdec::{Decimal, DecimalError, RoundingMode};
 use fpdec_core::verif_cov;
 use serde_json::{json, Value};
@@ -89,6 +89,16 @@ fn classify(ty: u64, neg: bool, m: u64, e: i32, want: &Want, rc: &Option<RemClas
     (code(ty, kind, rc.map(|r| r as u64).unwrap_or(0), neg), name)
 }
 
+thread_local! {
+    /// index of the thread-default rounding mode the calling worker has set for the "foreign mode" stage
+    /// (255 = untouched RoundHalfEven): it goes into the site and the replay witness
+    static FOREIGN_MODE: std::cell::Cell<u8> = const { std::cell::Cell::new(255) };
+}
+fn mode_tag() -> (String, Value) {
+    let m = FOREIGN_MODE.with(|c| c.get());
+    if m == 255 { (String::new(), Value::Null) } else { (format!(" [thread default {}]", mode_name(ALL_MODES[m as usize])), json!(m)) }
+}
+
 pub fn case64(b: u64, l: &mut Local) {
     let f = f64::from_bits(b);
     let (neg, m, e, nan, inf) = decode64(b);
@@ -99,7 +109,8 @@ pub fn case64(b: u64, l: &mut Local) {
     if l.class(c) { l.sample(c, json!({"f64_bits": format!("{:#018x}", b), "value": format!("{:e}", f), "expected": format!("{:?}", want)})); }
     if let Ok(Ok(d)) = &got { l.outcome(hash_i128s(&[d.coefficient(), d.n_frac_digits() as i128])); }
     if let Some(kind) = judge(&want, &got) {
-        l.violation(format!("Decimal::try_from(f64) | {} | {}", name, kind), || (format!("try_from({:e} = {:#018x}) = {}, expected {:?}", f, b, got.as_ref().map(show).unwrap_or("Panic".into()), want), json!({"ty": 64, "bits": b.to_string()})));
+        let (tag, tagv) = mode_tag();
+        l.violation(format!("Decimal::try_from(f64){} | {} | {}", tag, name, kind), || (format!("try_from({:e} = {:#018x}) = {}, expected {:?}", f, b, got.as_ref().map(show).unwrap_or("Panic".into()), want), json!({"ty": 64, "bits": b.to_string(), "thread_mode": tagv})));
     }
 }
 
@@ -113,7 +124,8 @@ pub fn case32(b: u32, l: &mut Local) {
     if l.class(c) { l.sample(c, json!({"f32_bits": format!("{:#010x}", b), "value": format!("{:e}", f), "expected": format!("{:?}", want)})); }
     if let Ok(Ok(d)) = &got { l.outcome(hash_i128s(&[d.coefficient(), d.n_frac_digits() as i128])); }
     if let Some(kind) = judge(&want, &got) {
-        l.violation(format!("Decimal::try_from(f32) | {} | {}", name, kind), || (format!("try_from({:e} = {:#010x}) = {}, expected {:?}", f, b, got.as_ref().map(show).unwrap_or("Panic".into()), want), json!({"ty": 32, "bits": b.to_string()})));
+        let (tag, tagv) = mode_tag();
+        l.violation(format!("Decimal::try_from(f32){} | {} | {}", tag, name, kind), || (format!("try_from({:e} = {:#010x}) = {}, expected {:?}", f, b, got.as_ref().map(show).unwrap_or("Panic".into()), want), json!({"ty": 32, "bits": b.to_string(), "thread_mode": tagv})));
     }
     // every f32 widened to f64 must convert to the same Decimal
     if !nan {
@@ -134,7 +146,11 @@ pub fn case32(b: u32, l: &mut Local) {
 pub fn replay(w: &Value) -> Vec<(String, String)> {
     let run = Run::new("C13", Tier::Quick);
     let bits: u64 = w["bits"].as_str().unwrap().parse().unwrap();
+    let prev = RoundingMode::default();
+    if let Some(m) = w["thread_mode"].as_u64() { FOREIGN_MODE.with(|c| c.set(m as u8)); RoundingMode::set_default(ALL_MODES[m as usize]); }
     run.seq(|l| if w["ty"].as_u64() == Some(64) { case64(bits, l) } else { case32(bits as u32, l) });
+    FOREIGN_MODE.with(|c| c.set(255));
+    RoundingMode::set_default(prev);
     run.violations().into_iter().map(|(s, r)| (s, r.detail)).collect()
 }
 
@@ -186,6 +202,27 @@ pub fn run(tier: Tier) -> i32 {
         if (f32v as f64) == (t as f64) * 2f64.powi(-19) { let b = f32v.to_bits(); for nb in [b - 1, b, b + 1] { case32(nb, l); l.distinct += 1; } }
     });
     run.stage("tie zone", json!({"odd_t": ts.len(), "forms": "t*2^-19 (exact ties at the 18th digit), t*2^-{20,21,25,40,60}, one ulp either side, both signs"}));
+    // the conversion rounds half-to-even WHATEVER the thread's default rounding mode is: the tie zone (reduced) again on
+    // workers whose default mode is each of the seven other modes (a shared rounding helper called with "use the
+    // thread default" would follow it: seeded change C13-m6)
+    {
+        let mut ts2: Vec<u64> = (0..(if th { 200_000u64 } else { 12_000 })).map(|t| 2 * t + 1).collect();
+        for k in 20..=52u32 { for d in [1u64, 3, 5] { ts2.push((1u64 << k) + d); ts2.push((1u64 << k) - d); } }
+        ts2.retain(|t| *t < (1u64 << 53) && t % 2 == 1);
+        ts2.sort(); ts2.dedup();
+        for (mi, mode) in ALL_MODES.iter().enumerate() {
+            if *mode == RoundingMode::RoundHalfEven { continue; }
+            run.par_for(&ts2, || { RoundingMode::set_default(*mode); FOREIGN_MODE.with(|c| c.set(mi as u8)); }, |&t, l| {
+                for sh in [19i32, 20, 25, 60] {
+                    let b = ((t as f64) * 2f64.powi(-sh)).to_bits();
+                    for nb in [b - 1, b, b + 1] { case64(nb, l); case64(nb | (1u64 << 63), l); l.distinct += 2; }
+                }
+                let f32v = (t as f32) * 2f32.powi(-19);
+                if (f32v as f64) == (t as f64) * 2f64.powi(-19) { let b = f32v.to_bits(); for nb in [b - 1, b, b + 1] { case32(nb, l); case32(nb | (1u32 << 31), l); l.distinct += 2; } }
+            });
+        }
+        run.stage("tie zone under the seven other thread-default modes", json!({"odd_t": ts2.len(), "modes": 7}));
+    }
     // round-trip family: the floats nearest to decimals c*10^-s for every coefficient of the boundary
     // alphabet (digit-count boundaries, 2^k +- 1 incl. the 2^24 / 2^53 precision limits, word boundaries)
     // at every scale, with one-ulp neighbours and both signs
